@@ -286,13 +286,14 @@ pub fn run(mut run: Run) -> i32 {
         let mut alpha: Vec<(Vec<IP>, bool)> = rings(3, 4).into_iter().step_by(if quick { 8 } else { 3 }).map(|r| (r, true)).collect();
         alpha.push((vec![(0, 0), (2, 2), (2, 0), (0, 2)], false)); // bow-tie
         alpha.push((vec![(0, 0), (1, 0), (2, 0)], false)); // flat
+        alpha.push((vec![], true)); // an EMPTY member: valid, and related to nothing
         let na = alpha.len();
         run.stage("multipolygon-triples", na * na * na, |idx, acc| {
             let t = [&alpha[idx / (na * na)], &alpha[(idx / na) % na], &alpha[idx % na]];
             let ps: Vec<Poly> = t.iter().map(|(r, _)| Poly { shell: r.clone(), holes: vec![] }).collect();
             let mp = MultiPolygon(ps.iter().map(poly).collect::<Vec<_>>());
             // pairwise relation between the valid members
-            let rel = |i: usize, j: usize| -> Option<Matrix> { if t[i].1 && t[j].1 { Some(de9im(&AG::Polys(vec![ps[i].clone()]), &AG::Polys(vec![ps[j].clone()]))) } else { None } };
+            let rel = |i: usize, j: usize| -> Option<Matrix> { if t[i].1 && t[j].1 && !t[i].0.is_empty() && !t[j].0.is_empty() { Some(de9im(&AG::Polys(vec![ps[i].clone()]), &AG::Polys(vec![ps[j].clone()]))) } else { None } };
             let all_members_valid = t.iter().all(|x| x.1);
             let pairs_ok = [(0, 1), (0, 2), (1, 2)].iter().all(|&(i, j)| rel(i, j).map_or(true, |m| m[I][I] == -1 && m[B][B] <= 0));
             acc.evals += 2;
@@ -435,7 +436,8 @@ pub fn run(mut run: Run) -> i32 {
         });
     }
     // finiteness clause on every type
-    let vals = [0.0, 1.0, f64::NAN, f64::INFINITY, f64::NEG_INFINITY];
+    // (f64::MAX and 1.5e308 are finite: sums and products of such ordinates overflow, the ordinates themselves do not)
+    let vals = [0.0, 1.0, f64::NAN, f64::INFINITY, f64::NEG_INFINITY, f64::MAX, -f64::MAX, 1.5e308];
     let nv = vals.len();
     run.stage("non-finite", nv * nv * nv * nv, |idx, acc| {
         let (x0, y0, x1, y1) = (vals[idx / (nv * nv * nv)], vals[(idx / (nv * nv)) % nv], vals[(idx / nv) % nv], vals[idx % nv]);
